@@ -646,6 +646,17 @@ func (ex *Exec) evalCall(e *Expr, env *Env) Val {
 				unsup("contract: same() needs slices or strings")
 			}
 			return ex.boolV(ts.And(ts.Eq(x.Base, y.Base), ts.Eq(x.Off, y.Off), ts.Eq(x.Len, y.Len)))
+		case "asiface":
+			// asiface(x, "pkg.T"): the interface value holding x with dynamic type pkg.T (what a conversion to an interface
+			// type does in Go), e.g. the error value of a string-typed error constant
+			if len(args) != 2 || args[1].K != EStr {
+				unsup("contract: asiface(x, \"pkg.T\")")
+			}
+			t := ex.lookupType(args[1].Name, env)
+			if t == nil {
+				unsup("contract: unknown type %s", args[1].Name)
+			}
+			return ex.makeInterface(ex.eval1(args[0], env), t, types.Universe.Lookup("error").Type())
 		case "streq":
 			// streq(a, b): the strings have the same content, stated through their ranks in the lexicographic order (an
 			// order embedding: equal ranks iff equal contents); cheap (quantifier free) where `==` is a quantified formula
